@@ -199,6 +199,15 @@ def generate(tier, seed):
         cases.append("mdl " + enc(t))
         cases.append("csv " + enc(t.split("\n")[0]))
         dist["noise"] += 1
+    # continuation corner cases: a dangling '\\' at the end of the text, before a blank line, before a section header,
+    # before a comment; trailing blanks / tabs after the value and after the backslash
+    pre = "[request_definition]\nr = sub, obj, act\n[policy_definition]\np = sub, obj, act\n[policy_effect]\ne = some(where (p.eft == allow))\n[matchers]\n"
+    for tail in ["m = r.sub == p.sub \\", "m = r.sub == p.sub \\\n", "m = r.sub == p.sub \\ \n", "m = r.sub == p.sub &&\\\n\n r.obj == p.obj\n",
+                 "m = r.sub == p.sub && \\\n[other]\nx = 1\n", "m = r.sub == p.sub && \\\n# c\n r.obj == p.obj\n", "m = r.sub == p.sub \t \n",
+                 "m = r.sub == p.sub\\\\\n", "m = \\\n r.sub == p.sub\n", "m = r.sub == p.sub && \\\n r.obj == p.obj \\\n && r.act == p.act\n",
+                 "m = r.sub == p.sub && \\\r\n r.obj == p.obj\r\n", "m = r.sub \\ == p.sub\n", "m \\\n = r.sub == p.sub\n"]:
+        cases.append("ini " + enc(pre + tail))
+        cases.append("mdl " + enc(pre + tail))
     for t in ["r.sub == p.sub", "pr.x r.y p2.z r22.q.w", "xr.sub", "r. p.", "(r.a)", "\"r.sub\"", "é r.x", "r_sub.p.x", "eval(p.rule)"]:
         cases.append("esc " + enc(t))
     for t in ["a # b", "#", "a#", "  x  # y # z", "no comment  ", ""]:
